@@ -283,7 +283,7 @@ Proof.
       { destruct ra; cbn; destruct v; auto; congruence. }
       pose proof (branch2_wfn y x _ _ Hx Hy Hd HwX HwY) as HwB.
       repeat split; auto.
-      * destruct p; cbn [mk_short]; auto. apply wfn_short. repeat split; auto. discriminate.
+      * destruct p; cbn [mk_short]; auto.
       * intros q. rewrite lookup_mk_short, lookup_short, strip_app_l.
         destruct (strip p q) as [r|] eqn:Hst.
         -- apply strip_some in Hst. subst q. rewrite keqb_app.
